@@ -118,7 +118,7 @@ def main():
         })
     m = {
         "version": 1,
-        "setup_cmd": "./check setup",
+        "setup_cmd": "./check setup && ./check selftest",
         "hooks": {
             "guard": "verif",
             "enable": "no source hooks: harnesses live in scratch modules next to the generated parsers and, for in-repo packages, are injected with go/packages overlays and `go test -overlay`",
